@@ -3,7 +3,8 @@
 
     One case is one history on one real Cache: executions of Cache.Exec with a
     scripted rest-of-chain, in-place writes to every message the driver was
-    ever handed or ever passed in, clock moves of stored items, /flush.
+    ever handed or ever passed in, clock moves of stored items, /flush, GET /dump
+    and POST /load_dump (the header word of a value carries Msg.Compress as bit 16).
     Observed: what the rest of the chain saw on every execution (the cached
     response handed to it, as a checksum of its canonical serialisation and of
     its packed bytes), and at the end the serialisation checksum of every
@@ -46,7 +47,12 @@ Inductive hop :=
 | HAge (k secs : N)
   (** the message lifetime of the item under [k] is over *)
 | HExpire (k : N)
-| HFlush.
+| HFlush
+  (** GET /dump: the driver keeps the bytes *)
+| HDump
+  (** POST /load_dump with the bytes of the last dump; [items]: for the keys
+      1..3 that have an item afterwards, the checksum of the message kept *)
+| HLoad (items : list (N * N)).
 
 (** [lazy]: lazy_cache_ttl > 0. [finals]: per held message, in the order they
     were obtained, the checksum of its serialisation at the end. [items]: for
@@ -63,9 +69,14 @@ Definition ser_rv (r : rval) : bytes :=
   u16 (v_name r) ++ u16 (v_type r) ++ u32 (v_ttl r) ++ b8 (len (v_data r)) :: map b8 (v_data r).
 Definition ser_sec (l : list rval) : bytes := b8 (N.of_nat (length l)) :: flat_map ser_rv l.
 Definition ser (v : mval) : bytes :=
-  u16 (mv_id v) ++ u16 (mv_hdr v) ++ (b8 (N.of_nat (length (mv_q v))) :: flat_map u16 (mv_q v))
+  u16 (mv_id v) ++ u32 (mv_hdr v) ++ (b8 (N.of_nat (length (mv_q v))) :: flat_map u16 (mv_q v))
   ++ ser_sec (mv_an v) ++ ser_sec (mv_ns v) ++ ser_sec (mv_ex v).
 Definition vsum (v : mval) : N := checksum (ser v).
+
+(** The header word carries dns.Msg.Compress as bit 16 (it is not on the wire:
+    a message built by Unpack has it clear). *)
+Definition unc (v : mval) : mval :=
+  mkmv (mv_id v) (N.land (mv_hdr v) 65535) (mv_q v) (mv_an v) (mv_ns v) (mv_ex v).
 
 (** * query_context.SetResponse: popOpt removes the last OPT of Extra *)
 
@@ -113,7 +124,7 @@ Definition run_down (s : state) (exp : list N) (k : N) (ops : list op) : state *
   let s' := run_from s ops in
   (s', if opt_nat_eqb (lookup k (cache s')) (lookup k (cache s)) then exp else delN k exp).
 
-Record jst := mkj { j_s : state; j_exp : list N; j_ok : bool }.
+Record jst := mkj { j_s : state; j_exp : list N; j_ok : bool; j_dump : list (N * mval) }.
 
 Definition obs_ok (o : obs) (got : option mval) : bool :=
   match o, got with
@@ -121,34 +132,6 @@ Definition obs_ok (o : obs) (got : option mval) : bool :=
   | OHit id _ ck _, Some v => (mv_id v =? id) && (vsum v =? ck)
   | _, _ => false
   end.
-
-Definition jstep (lazy : bool) (j : jst) (h : hop) : jst :=
-  let s := j_s j in
-  match h with
-  | HX c k q d lz o =>
-    let expired := memN k (j_exp j) in
-    (* an expired message is only served when lazy cache is on *)
-    let s0 := if expired && negb lazy then step s (Drop k) else s in
-    let a := if expired then ASet cache_expired_msg_ttl
-             else ASub (match o with OHit _ delta _ _ => delta | OMiss => 0 end) in
-    let s1 := step s0 (Hit c k q a) in
-    let got := last (served s1) None in
-    let '(s2, e2) := run_down s1 (j_exp j) k (down_ops s1 c k q d) in
-    let lazy_hit := expired && lazy && match got with Some _ => true | None => false end in
-    let '(s3, e3) := if lazy_hit then run_down s2 e2 k (down_ops s2 c k q lz) else (s2, e2) in
-    mkj s3 e3 (j_ok j && obs_ok o got)
-  | HM h mu => mkj (step s (Mutate h mu)) (j_exp j) (j_ok j)
-  | HAge _ _ => j
-  | HExpire k =>
-    match lookup k (cache s) with
-    | Some _ => mkj s (k :: j_exp j) (j_ok j)
-    | None => j
-    end
-  | HFlush => mkj (step s Flush) [] (j_ok j)
-  end.
-
-Definition jrun (lazy : bool) (hops : list hop) : jst :=
-  fold_left (jstep lazy) hops (mkj init [] true).
 
 Fixpoint assocN (k : N) (l : list (N * N)) : option N :=
   match l with
@@ -166,6 +149,38 @@ Definition item_ok (j : jst) (items : list (N * N)) (k : N) : bool :=
   | None, Some _ => memN k (j_exp j)
   | Some _, None => false
   end.
+
+Definition jstep (lazy : bool) (j : jst) (h : hop) : jst :=
+  let s := j_s j in
+  match h with
+  | HX c k q d lz o =>
+    let expired := memN k (j_exp j) in
+    (* an expired message is only served when lazy cache is on *)
+    let s0 := if expired && negb lazy then step s (Drop k) else s in
+    let a := if expired then ASet cache_expired_msg_ttl
+             else ASub (match o with OHit _ delta _ _ => delta | OMiss => 0 end) in
+    let s1 := step s0 (Hit c k q a) in
+    let got := last (served s1) None in
+    let '(s2, e2) := run_down s1 (j_exp j) k (down_ops s1 c k q d) in
+    let lazy_hit := expired && lazy && match got with Some _ => true | None => false end in
+    let '(s3, e3) := if lazy_hit then run_down s2 e2 k (down_ops s2 c k q lz) else (s2, e2) in
+    mkj s3 e3 (j_ok j && obs_ok o got) (j_dump j)
+  | HM h mu => mkj (step s (Mutate h mu)) (j_exp j) (j_ok j) (j_dump j)
+  | HAge _ _ => j
+  | HExpire k =>
+    match lookup k (cache s) with
+    | Some _ => mkj s (k :: j_exp j) (j_ok j) (j_dump j)
+    | None => j
+    end
+  | HFlush => mkj (step s Flush) [] (j_ok j) (j_dump j)
+  | HDump => mkj (step s Dump) (j_exp j) (j_ok j) (dump_of s all_keys)
+  | HLoad items =>
+    let j' := mkj (step s (Load (map (fun e => (fst e, unc (snd e))) (j_dump j)))) (j_exp j) (j_ok j) (j_dump j) in
+    mkj (j_s j') (j_exp j) (j_ok j && forallb (item_ok j' items) all_keys) (j_dump j)
+  end.
+
+Definition jrun (lazy : bool) (hops : list hop) : jst :=
+  fold_left (jstep lazy) hops (mkj init [] true []).
 
 Definition agree (c : case) : bool :=
   match c with
@@ -193,7 +208,7 @@ Definition ref_set (k : N) (e : ent) (r : list (N * ent)) : list (N * ent) :=
 
 Definition age_slack : N := 600.
 
-Record sst := mks { s_ref : list (N * ent); s_made : list N; s_ok : bool }.
+Record sst := mks { s_ref : list (N * ent); s_made : list N; s_ok : bool; s_dump : list (N * ent) }.
 
 (** The effect of one response on the reference cache and on the list of
     messages the driver holds (their checksum when obtained). *)
@@ -205,14 +220,22 @@ Definition spec_down (t : sst) (k q : N) (d : dn) : sst :=
     let r := if answers v k && admissible v
              then ref_set k (mke (Some (strip_opt v)) 0 false None None) (s_ref t)
              else s_ref t in
-    mks r (s_made t ++ [vsum v]) (s_ok t)
+    mks r (s_made t ++ [vsum v]) (s_ok t) (s_dump t)
   | KOld _ =>
     (* a message that may have been rewritten: what is stored is not known here *)
-    mks (ref_set k (mke None 0 false None None) (s_ref t)) (s_made t) (s_ok t)
+    mks (ref_set k (mke None 0 false None None) (s_ref t)) (s_made t) (s_ok t) (s_dump t)
   end.
 
 Definition pk_ok (seen : option N) (pk : N) : bool :=
   match seen with Some x => x =? pk | None => true end.
+
+(** What the cache keeps under a key is the value that was stored, whatever
+    was written to any message since. *)
+Definition item_spec (t : sst) (items : list (N * N)) (k : N) : bool :=
+  match ref_get k (s_ref t), assocN k items with
+  | Some en, Some ck => match e_val en with Some v => vsum v =? ck | None => true end
+  | _, _ => true
+  end.
 
 Definition spec_step (lazy : bool) (t : sst) (h : hop) : sst :=
   match h with
@@ -224,10 +247,10 @@ Definition spec_step (lazy : bool) (t : sst) (h : hop) : sst :=
       | OHit id delta ck pk =>
         let made := s_made t ++ [ck] in
         match e with
-        | None => mks (s_ref t) made false    (* served something never stored *)
+        | None => mks (s_ref t) made false (s_dump t)    (* served something never stored *)
         | Some en =>
           match e_val en with
-          | None => mks (s_ref t) made (s_ok t && (id =? q))
+          | None => mks (s_ref t) made (s_ok t && (id =? q)) (s_dump t)
           | Some v =>
             let a := if e_exp en then ASet cache_expired_msg_ttl else ASub delta in
             let val_ok := vsum (set_id q (adjust_val a v)) =? ck in
@@ -239,7 +262,7 @@ Definition spec_step (lazy : bool) (t : sst) (h : hop) : sst :=
             let en' := if e_exp en then mke (e_val en) (e_age en) true (e_pk en) (Some pk)
                        else mke (e_val en) (e_age en) false (Some pk) (e_pkl en) in
             mks (ref_set k en' (s_ref t)) made
-                (s_ok t && (id =? q) && val_ok && age_ok && exp_ok && pk_ok pk_seen pk)
+                (s_ok t && (id =? q) && val_ok && age_ok && exp_ok && pk_ok pk_seen pk) (s_dump t)
           end
         end
       end in
@@ -249,16 +272,26 @@ Definition spec_step (lazy : bool) (t : sst) (h : hop) : sst :=
   | HAge k secs =>
     match ref_get k (s_ref t) with
     | Some en => mks (ref_set k (mke (e_val en) (e_age en + secs) (e_exp en) (e_pk en) (e_pkl en)) (s_ref t))
-                     (s_made t) (s_ok t)
+                     (s_made t) (s_ok t) (s_dump t)
     | None => t
     end
   | HExpire k =>
     match ref_get k (s_ref t) with
     | Some en => mks (ref_set k (mke (e_val en) (e_age en) true (e_pk en) (e_pkl en)) (s_ref t))
-                     (s_made t) (s_ok t)
+                     (s_made t) (s_ok t) (s_dump t)
     | None => t
     end
-  | HFlush => mks [] (s_made t) (s_ok t)
+  | HFlush => mks [] (s_made t) (s_ok t) (s_dump t)
+  | HDump => mks (s_ref t) (s_made t) (s_ok t) (s_ref t)
+  | HLoad items =>
+    (* every key of the dump holds what it held when the dump was written
+       (Compress is not on the wire); a new item: packed bytes are compared afresh *)
+    let r := fold_left (fun r ke =>
+                 let en := snd ke in
+                 ref_set (fst ke) (mke (option_map unc (e_val en)) (e_age en) (e_exp en) None None) r)
+               (s_dump t) (s_ref t) in
+    let t' := mks r (s_made t) (s_ok t) (s_dump t) in
+    mks r (s_made t) (s_ok t && forallb (item_spec t' items) all_keys) (s_dump t)
   end.
 
 (** Handles some step wrote to, took a reference from, or handed back to the cache. *)
@@ -278,18 +311,10 @@ Fixpoint untouched_same (i : nat) (tl : list nat) (made finals : list N) : bool 
   | _, _ => false
   end.
 
-(** What the cache keeps under a key is the value that was stored, whatever
-    was written to any message since. *)
-Definition item_spec (t : sst) (items : list (N * N)) (k : N) : bool :=
-  match ref_get k (s_ref t), assocN k items with
-  | Some en, Some ck => match e_val en with Some v => vsum v =? ck | None => true end
-  | _, _ => true
-  end.
-
 Definition spec (c : case) : bool :=
   match c with
   | Case lazy hops finals items =>
-    let t := fold_left (spec_step lazy) hops (mks [] [] true) in
+    let t := fold_left (spec_step lazy) hops (mks [] [] true []) in
     s_ok t && untouched_same O (flat_map touched hops) (s_made t) finals
     && forallb (item_spec t items) all_keys
   end.
